@@ -34,3 +34,57 @@ package appctlcommon
 //@   noframe
 //@   loop 1:
 //@     invariant true
+
+//@ // Port binding validation never panics either (C20): the regular-expression match is used
+//@ // only after its length was checked, and the port loops stay within 1..65535.
+//@ func FlatPortBindings(bindings []*pb.PortBinding) (r []*pb.PortBinding, err error)
+//@   property C20
+//@   mode int
+//@   noframe
+//@   preserves ClientProfile.*
+//@   loop 1:
+//@     invariant -1 <= rangeindex && rangeindex < len(bindings)
+//@   loop 2:
+//@     invariant 1 <= small && small <= i && i <= big + 1 && big <= 65535
+//@   loop 3:
+//@     invariant 1 <= small && small <= i && i <= big + 1 && big <= 65535
+//@   loop 4:
+//@     invariant true
+//@   loop 5:
+//@     invariant true
+//@   loop 6:
+//@     invariant -1 <= rangeindex__2 && rangeindex__2 < len(tcpList)
+//@   loop 7:
+//@     invariant -1 <= rangeindex__3 && rangeindex__3 < len(udpList)
+
+//@ // What validation of a user record guarantees (C20, C05): an accepted record has a name
+//@ // within the hint function's domain, a password or a hashed password (a name alone is
+//@ // refused), a password of at most 64 bytes, and only quotas with positive days and volume.
+//@ // Panic-free for every record, nil quota entries included.
+//@ func ValidateServerConfigSingleUser(user *pb.User) (err error)
+//@   property C20 C05
+//@   mode int
+//@   modifies nothing
+//@   ensures err == nil ==> user != nil && pbs(user.Name) != "" && len(pbs(user.Name)) <= constant.MaxUserNameLen
+//@   ensures err == nil ==> (pbs(user.Password) != "" || pbs(user.HashedPassword) != "") && len(pbs(user.Password)) <= 64
+//@   ensures err == nil ==> forall(k, 0, len(user.Quotas), user.Quotas[k] != nil && user.Quotas[k].Days != nil && *user.Quotas[k].Days > 0 && user.Quotas[k].Megabytes != nil && *user.Quotas[k].Megabytes > 0)
+//@   loop 1:
+//@     modifies nothing
+//@     invariant -1 <= rangeindex && rangeindex < 9223372036854775807
+//@     invariant user != nil ==> forall(k, 0, rangeindex + 1, user.Quotas[k] != nil && user.Quotas[k].Days != nil && *user.Quotas[k].Days > 0 && user.Quotas[k].Megabytes != nil && *user.Quotas[k].Megabytes > 0)
+
+//@ // A client profile passes validation only with an MTU that is unset (0: the default is used)
+//@ // or within [1280, 1500] (C14), whatever else the profile contains.
+//@ func ValidateClientConfigSingleProfile(profile *pb.ClientProfile) (err error)
+//@   property C14 C20
+//@   mode int
+//@   partial
+//@   posts_only
+//@   noframe
+//@   may_panic
+//@   ensures [C14] err == nil ==> profile != nil && (profile.Mtu == nil || *profile.Mtu == 0 || (1280 <= *profile.Mtu && *profile.Mtu <= 1500))
+//@   loop 1:
+//@     invariant true
+
+//@ func validateClientProfileDialer(profile *pb.ClientProfile) (err error)
+//@   trusted a pure check of the dialer section (URL parsing); assumed to write nothing
